@@ -85,9 +85,9 @@ def raw_scaled(x):
 
 
 def raw_realwide(x):
-    # very wide but finite bounds (1e200, 1.7e308) next to an ordinary variable; no pow (OverflowError), products only
-    u, v, w = x
-    o = [abs(u) * 1e-200 + w, abs(v) * 1e-308 + (1.0 - w) * (1.0 - w)]
+    # very wide but finite bounds (1e200 ... DBL_MAX) next to an ordinary variable; no pow (OverflowError), products only
+    u, v, m, t, w = x
+    o = [abs(u) * 1e-200 + abs(m) * 1e-309 + w, abs(v) * 1e-308 + abs(t) * 1e-308 + (1.0 - w) * (1.0 - w)]
     k = [(0.0 if w != w else math.floor(w * 8) / 8) - 0.25, 0.75 if u > 0 else 0.25]
     return o, k
 
@@ -150,9 +150,9 @@ def make_types(kind):
         "real6": lambda: [Real(0.0, 1.0) for _ in range(6)],
         # a user-defined type with its own encoding (plain Real first, so the library picks its Real defaults)
         "scaled": lambda: [Real(0.0, 1.0), ScaledReal(0.0, 1024.0, 10), ScaledReal(-1.0, 1.0, -3)],
-        # very wide but finite bounds whose WIDTH is still finite (with +-1.7e308 the width max-min overflows and
-        # Real.rand itself returns inf on the unchanged code: probed separately, see wide_rand_probe)
-        "realwide": lambda: [Real(-1e200, 1e200), Real(-8e307, 8e307), Real(0.0, 1.0)],
+        # very wide but finite bounds, including those whose WIDTH max-min overflows (+-1.7e308, +-DBL_MAX)
+        "realwide": lambda: [Real(-1e200, 1e200), Real(-1.7e308, 1.7e308), Real(-1.7976931348623157e308, 1.7976931348623157e308),
+                             Real(-8e307, 8e307), Real(0.0, 1.0)],
         # ranges whose number of values is a power of two: every code of nbits bits is used
         "intpow2": lambda: [Integer(0, 7), Integer(-8, 7), Integer(3, 4)],
         "integer": lambda: [Integer(-3, 5), Integer(0, 6)],
@@ -934,7 +934,32 @@ def nat(n):
     return "%d%%nat" % n
 
 
+def val_lit_any(v):
+    """literal of a value by its OWN shape (used when a logged value does not have the shape its declared type promises:
+    the Coq domain check then answers 'out of domain', like the Python oracle)"""
+    if isinstance(v, (list, tuple)):
+        if all(isinstance(b, bool) for b in v):
+            return "(VBits %s)" % C.list_lit([C.bool_lit(b) for b in v])
+        if all(isinstance(e, int) for e in v):
+            return "(VList %s)" % C.list_lit([C.z_lit(e) for e in v])
+        return "(VList [])"
+    if isinstance(v, bool):
+        return "(VBits [%s])" % C.bool_lit(v)
+    if isinstance(v, int):
+        return "(VInt %s)" % C.z_lit(v)
+    if isinstance(v, float):
+        return "(VNum %s)" % num_lit(v)
+    return "(VList [])"
+
+
 def val_lit(tdesc, v, decoded):
+    try:
+        return _val_lit(tdesc, v, decoded)
+    except (TypeError, ValueError):
+        return val_lit_any(v)
+
+
+def _val_lit(tdesc, v, decoded):
     k = tdesc[0]
     if k == "real":
         return "(VNum %s)" % num_lit(v)
@@ -1569,16 +1594,55 @@ def integer_decode_replay(rp):
     return None if rp["min"] <= v <= rp["max"] else "decodes to %r" % (v,)
 
 
-def wide_rand_probe():
-    """Real(lb, ub).rand() when ub - lb overflows: random.uniform(lb, ub) = lb + (ub-lb)*random() = inf"""
+REAL_BOUNDS_POOL = [(0.0, 1.0), (-1.0, 2.0), (-1e200, 1e200), (-8e307, 8e307), (-1.7e308, 1.7e308), (0.0, 1.7976931348623157e308),
+                    (-1.7976931348623157e308, 1.7976931348623157e308), (-1.7976931348623157e308, 0.0), (-1e308, 1.5e308),
+                    (0.0, 1e-15), (-5e-324, 5e-324), (1.0, 1.0000000000000002)]
+
+
+def real_rand_oracle(rng, draws):
+    """Real(lb, ub).rand() (the initial population of every algorithm) stays inside [lb, ub] and is not NaN,
+    also under scripted extreme primitive draws.  Returns (number of draws, failures)."""
     from platypus import Real
-    out = []
-    for (a, b) in ((-1.7e308, 1.7e308), (-1e308, 1e308), (-8e307, 8e307)):
-        random.seed(1)
-        vals = [Real(a, b).rand() for _ in range(5)]
-        bad = [v for v in vals if not (a <= v <= b)]
-        if bad:
-            out.append({"input": "Real(%r, %r).rand() (the initial population of every algorithm)" % (a, b), "returns": repr(bad[0]),
-                        "note": "max_value - min_value overflows to inf, so random.uniform returns inf: the user function receives a value outside "
-                                "the declared bounds (C07) on a legal, finite-bounds configuration"})
-    return out
+    fails, n = [], 0
+    for (a, b) in REAL_BOUNDS_POOL:
+        t = Real(a, b)
+        for mode in (None, 0.5):
+            seed = rng.randrange(10 ** 9)
+            random.seed(seed)
+            script = ScriptedRandom(seed, mode) if mode else None
+            if script:
+                script.install()
+            try:
+                for k in range(draws):
+                    n += 1
+                    v = t.rand()
+                    if not (a <= v <= b):
+                        fails.append(("real-rand-out-of-bounds:Real(%r,%r)" % (a, b),
+                                      "Real(%r, %r).rand() returned %r (draw %d, seed %d, scripted extremes %r): the initial population hands the user "
+                                      "function a value outside the declared bounds" % (a, b, v, k, seed, mode),
+                                      {"kind": "real-rand", "lb": repr(a), "ub": repr(b), "seed": seed, "script": mode, "draws": draws}))
+                        break
+            finally:
+                if script:
+                    script.uninstall()
+            if fails and fails[-1][2]["lb"] == repr(a) and fails[-1][2]["ub"] == repr(b):
+                break
+    return n, fails
+
+
+def real_rand_replay(rp):
+    from platypus import Real
+    a, b = float(rp["lb"]), float(rp["ub"])
+    random.seed(rp["seed"])
+    script = ScriptedRandom(rp["seed"], rp["script"]) if rp.get("script") else None
+    if script:
+        script.install()
+    try:
+        for k in range(rp["draws"]):
+            v = Real(a, b).rand()
+            if not (a <= v <= b):
+                return "returned %r" % v
+    finally:
+        if script:
+            script.uninstall()
+    return None
